@@ -48,6 +48,53 @@ def polar_cases(draw, nrmax=18):
             "stf": draw(st.sampled_from(["kolstf", "kolmogorov"])), "outerscale": draw(st.sampled_from([None, None, 5.0, 1000.0]))}
 
 
+def quadratic_form_fft(K, r, npp):
+    """-1/2 <<K_i D K_j>> over the polar grid with the independent D = 6.8839 (|x - x'| / 2)^(5/3), summed over ALL point pairs
+    exactly as the brute-force double sum, but ring pair by ring pair as a circular correlation in theta (D depends on the
+    two radii and the angle difference only) - affordable at the radial resolutions make_kl's documentation recommends."""
+    nfunc, nr, _ = K.shape
+    m = 2 * np.pi * np.arange(npp) / npp
+    rho = 0.5 * np.sqrt(np.maximum(r[:, None, None] ** 2 + r[None, :, None] ** 2 - 2 * r[:, None, None] * r[None, :, None] * np.cos(m)[None, None, :], 0.0))
+    Dh = np.fft.fft(6.8839 * rho ** (5.0 / 3), axis=-1)
+    F = np.fft.fft(K, axis=-1)
+    T = np.einsum("abk,jbk->jak", Dh, F)
+    n = nr * npp
+    return -0.5 * np.einsum("iak,jak->ij", np.conj(F), T).real / npp / (n * n)
+
+
+def production_cases(tier):
+    return [{"ri": ri, "nr": nr, "nfunc": 10} for nr, ri in ([(8, 0.2), (60, 0.2), (64, 0.25)] if tier == "quick" else [(8, 0.2), (60, 0.2), (64, 0.25), (72, 0.1), (80, 0.2), (61, 0.3)])]
+
+
+def production_body(ctx, p):
+    """The radial resolutions make_kl's documentation recommends for 1000 - 3000 modes (nr 60 .. 80), where an implementation
+    may evaluate the kernel differently (blocking) from the small grids the other laws draw."""
+    kl = KL()
+    ri, nr, nfunc = p["ri"], p["nr"], p["nfunc"]
+    npp = 5 * nr
+    ctx.case(p, nontrivial=nr >= 60, classes=["nr%d" % nr])
+    bas = quiet(kl.gkl_basis, ri, nr, npp, nfunc)
+    K = np.stack([quiet(kl.gkl_sfi, bas, i) for i in range(nfunc)])
+    ev = np.asarray(bas["evals"], dtype=float)
+    r = np.asarray(bas["radp"], dtype=float)
+    ctx.close(r ** 2, ri ** 2 + (1 - ri ** 2) / nr * (np.arange(nr) + 1.0 / 16), 1e-12, "radial grid: equal-area rings between ri and 1", scale=1.0, name="radial grid")
+    Kf = K.reshape(nfunc, -1)
+    n = Kf.shape[1]
+    ctx.close(Kf @ Kf.T / n, np.eye(nfunc), 1e-10, "Gram matrix over the pupil == identity (nr=%d)" % nr, scale=1.0, name="gram")
+    M = quadratic_form_fft(K, r, npp)
+    if nr <= 10:
+        th = 2 * np.pi * np.arange(npp) / npp
+        X = (r[:, None] * np.cos(th)[None, :]).ravel()
+        Y = (r[:, None] * np.sin(th)[None, :]).ravel()
+        D = 6.8839 * (0.5 * np.sqrt((X[:, None] - X[None, :]) ** 2 + (Y[:, None] - Y[None, :]) ** 2)) ** (5.0 / 3)
+        ctx.close(M, -0.5 * (Kf @ D @ Kf.T) / (n * n), 1e-11, "oracle self-test: ring-pair circular correlation == brute-force double sum", scale=float(np.max(np.abs(ev))), name="oracle self-test")
+    top = float(np.max(np.abs(ev)))
+    off = M - np.diag(np.diag(M))
+    ctx.residual("production resolution: off-diagonal covariance / largest variance", float(np.max(np.abs(off))) / top, 1e-8)
+    ctx.require(float(np.max(np.abs(off))) <= 1e-8 * top, "KL modes do not diagonalise the Kolmogorov covariance at nr=%d: largest off-diagonal element %.3g of the largest variance" % (nr, float(np.max(np.abs(off))) / top))
+    ctx.close(np.diag(M), ev, 1e-8, "diagonal of -1/2 <<K D K>> == returned variances (nr=%d)" % nr, scale=top, name="variances at production resolution")
+
+
 def polar_body(ctx, p):
     kl = KL()
     ri, nr, npp, nfunc = p["ri"], p["nr"], p["npp"], p["nfunc"]
@@ -237,6 +284,7 @@ LAWS = [
     Law("every_resolution_constructs", resolution_run, replay=resolution_replay, shards={"quick": 8, "thorough": 16}),
     given_law("polar_xl", polar_cases(26), polar_body, {"quick": 0, "thorough": 6}, shards={"quick": 1, "thorough": 16}),
     given_law("polar", polar_cases(), polar_body, {"quick": 20, "thorough": 200}, shards={"quick": 6, "thorough": 16}),
+    plain_law("polar_production_resolution", production_cases, production_body, shards={"quick": 3, "thorough": 6}),
     plain_law("degenerate_variances", crossing_cases, crossing_body, shards={"quick": 2, "thorough": 3}),
     given_law("cartesian", cart_cases(), cart_body, {"quick": 16, "thorough": 150}, shards={"quick": 5, "thorough": 16}),
 ]
